@@ -341,13 +341,17 @@ async def amain(a):
                         runs.append(await asyncio.wait_for(scenario(client, cfg, order), 90))
         obs = []
         for shape in OBS:
+            # (partition(2): four elements, so that a second partition forms while the first one waits for the cluster)
+            nn = 4 if shape == "partition" else n
             for awaitmode in (True, False):
                 for cons in ("future", "sync"):
-                    perms = [tuple(range(1, n + 1))] if awaitmode else list(itertools.permutations(range(1, n + 1)))
+                    perms = [tuple(range(1, nn + 1))] if awaitmode else list(itertools.permutations(range(1, nn + 1)))
                     if a.tier == "quick" and not awaitmode:
                         perms = [perms[0], perms[-1], rng.choice(perms[1:-1])]
+                    elif not awaitmode and len(perms) > 8:
+                        perms = [perms[0], perms[-1]] + rng.sample(perms[1:-1], 6)
                     for order in perms:
-                        cfg = {"shape": shape, "n": n, "await": awaitmode, "cons": cons}
+                        cfg = {"shape": shape, "n": nn, "await": awaitmode, "cons": cons}
                         obs.append(await asyncio.wait_for(obs_scenario(client, cfg, order), 60))
     finally:
         await client.close()
